@@ -11,7 +11,7 @@ encode = default_encode(SIG)
 decode = default_decode(SIG)
 TASK_REQS = 2000
 RULE = ('requests (n, d): structured operands; dividend </=/> divisor; single-digit divisors; the (m, n) digit-length grid; '
-        'n = q*d + r with r in {0, 1, d-1}; constructed Knuth-D hard cases at every digit size (q-hat corrected once/twice, the '
+        'n = q*d + r with r in {0, 1, d-1}; exact multiples of divisors made of one generic leading digit (emphasis just above B/2) followed by (almost) zero digits, so that every partial remainder leads with an exact multiple of the leading divisor digit; constructed Knuth-D hard cases at every digit size (q-hat corrected once/twice, the '
         'q-hat = B-1 branch, add-back, normalisation shift 0 and D-1); signed: all sign combinations, MIN, -1; zero divisors; all '
         '2^16 pairs at 8 bits and a dividend-exhaustive slice at 16 bits. The monitor classifies each request by its own simulation '
         'of Algorithm D at the same digit base. Non-trivial: multi-digit (Knuth) path, any correction/add-back, negative operand '
@@ -194,6 +194,34 @@ def magnitudes(cfg, rng):
         if rng.random() < 0.5:
             u |= 1 << (D * l - 1 - rng.randrange(D))
         return u, v
+    if r < 0.57 and N >= 2:
+        # exact multiples (plus a small remainder) of a divisor that is one generic leading digit followed by (almost) zero digits: at every step the
+        # two leading digits of the running remainder are then an exact multiple q_j * v1 of the leading divisor digit - the case in which a
+        # 2-by-1 division by reciprocal, or any quotient-digit estimate, has no slack. v1 is emphasised just above B/2 (a normalised divisor
+        # with the smallest leading digit), where reciprocal estimates are least accurate.
+        n = rng.randrange(2, N + 1) if N > 2 else 2
+        c = rng.random()
+        if c < 0.45:
+            v1 = (B >> 1) + rng.randrange(0, max(1, B >> 3))
+        elif c < 0.6:
+            v1 = rng.choice((B >> 1, (B >> 1) + 1, B - 1, B - 2))
+        elif c < 0.8:
+            v1 = rng.randrange(B >> 1, B)
+        else:
+            v1 = rng.randrange(1, B)
+        e = rng.choice((0, 1, 1, 2, B - 1, rng.randrange(B)))
+        if n > 2 and rng.random() < 0.2:
+            e |= rng.choice((1, B - 1)) << (D * rng.randrange(1, n - 1))
+        d = (v1 << (D * (n - 1))) | e
+        qmax = U.max // d
+        q = rng.getrandbits(D * rng.randrange(1, N - n + 2)) % (qmax + 1)
+        if rng.random() < 0.3:
+            q = min(qmax, gen.extreme_digits(U, rng) >> (D * (n - 1)))
+        rem = rng.choice((0, 0, 1, d - 1, rng.randrange(d)))
+        u = q * d + rem
+        if u > U.max:
+            u = q * d
+        return u, d
     if r < 0.66:
         # n = q*d + r
         d = gen.short(U, rng) if rng.random() < 0.8 else gen.value(U, rng)
